@@ -124,6 +124,207 @@ let msg_str (m : emsg) : string =
   | MHandler None -> "msg"                 (* library's default text for a silent handler *)
   | MHandler (Some t) -> "hmsg:" ^ hex_of_bytes t
 
+
+(* ---- scripts over handles: the store maps handles to trees; hashing updates the tree ---- *)
+let handles : node option array = Array.make 16 None
+
+let children (nd : node) : node list =
+  let Node (v, _, _, _, _) = nd in
+  match v with
+  | VList xs | VVector xs | VSet xs -> xs
+  | VMap (ks, vs) -> List.concat (List.map2 (fun k x -> [k; x]) ks vs)
+  | VTagged (_, x) -> [x]
+  | _ -> []
+
+let with_children (nd : node) (cs : node list) : node =
+  let Node (v, a, b, m, h) = nd in
+  let v' = match v with
+    | VList _ -> VList cs | VVector _ -> VVector cs | VSet _ -> VSet cs
+    | VMap _ ->
+      let rec split l = match l with k :: x :: t -> let (ks, vs) = split t in (k :: ks, x :: vs) | _ -> ([], []) in
+      let (ks, vs) = split cs in VMap (ks, vs)
+    | VTagged (t, _) -> (match cs with [x] -> VTagged (t, x) | _ -> v)
+    | _ -> v in
+  Node (v', a, b, m, h)
+
+type step = Child of int | Meta
+let parse_path (p : string) : step list =
+  List.filter_map (fun s -> if s = "" then None else if s = "m" then Some Meta else Some (Child (int_of_string s)))
+    (String.split_on_char '.' p)
+
+let rec nav (nd : node) (path : step list) : node option =
+  match path with
+  | [] -> Some nd
+  | Meta :: r -> let Node (_, _, _, m, _) = nd in (match m with Some x -> nav x r | None -> None)
+  | Child i :: r -> (match List.nth_opt (children nd) i with Some x -> nav x r | None -> None)
+
+let rec update (nd : node) (path : step list) (f : node -> node) : node =
+  match path with
+  | [] -> f nd
+  | Meta :: r ->
+    let Node (v, a, b, m, h) = nd in
+    (match m with Some x -> Node (v, a, b, Some (update x r f), h) | None -> nd)
+  | Child i :: r ->
+    with_children nd (List.mapi (fun k x -> if k = i then update x r f else x) (children nd))
+
+(* "<h>.<path>" -> (handle, path) *)
+let parse_ref (s : string) : int * step list =
+  match String.index_opt s '.' with
+  | None -> (int_of_string s, [])
+  | Some i -> (int_of_string (String.sub s 0 i), parse_path (String.sub s (i + 1) (String.length s - i - 1)))
+
+let get_ref (s : string) : node option =
+  let (h, p) = parse_ref s in
+  match handles.(h) with Some t -> nav t p | None -> None
+
+let rec strip_ranges_s (s : string) : string =
+  (* remove @a-b *)
+  let b = Buffer.create (String.length s) in
+  let n = String.length s in
+  let i = ref 0 in
+  while !i < n do
+    if s.[!i] = '@' then begin
+      incr i;
+      while !i < n && (s.[!i] = '-' || (s.[!i] >= '0' && s.[!i] <= '9')) do incr i done
+    end else begin Buffer.add_char b s.[!i]; incr i end
+  done;
+  Buffer.contents b
+
+let run_script (c : cfg) (text : string) : string =
+  Array.fill handles 0 16 None;
+  let eqf = equal c no_ext_equal in
+  let ops = List.filter (fun s -> s <> "") (String.split_on_char ';' text) in
+  let outs = List.map (fun op ->
+      let k = op.[0] in
+      let a = String.sub op 1 (String.length op - 1) in
+      match k with
+      | 'P' ->
+        let i = String.index a '=' in
+        let h = int_of_string (String.sub a 0 i) in
+        let hex = String.sub a (i + 1) (String.length a - i - 1) in
+        let arr = bytes_of_hex hex in
+        let o = mk_opts None Z0 false in
+        (match run_doc c o (mem_of arr) (n_of_int (Array.length arr)) with
+         | Ret (r, _) ->
+           (match r.r_value, r.r_err with
+            | Some v, EOk -> handles.(h) <- Some v; "ok"
+            | _, e -> handles.(h) <- None; "err:" ^ ecode_name e)
+         | _ -> "modelfail")
+      | 'F' -> handles.(int_of_string a) <- None; "freed"
+      | 'H' ->
+        let (h, p) = parse_ref a in
+        (match handles.(h) with
+         | Some t when nav t p <> None ->
+           let t' = update t p (hash_cache c no_ext_hash) in
+           handles.(h) <- Some t';
+           (match nav t' p with Some (Node (_, _, _, _, hv)) -> hex_of_z64 hv | None -> "nonode")
+         | _ -> "nonode")
+      | 'E' ->
+        (match String.split_on_char ',' a with
+         | [x; y] ->
+           (match get_ref x, get_ref y with
+            | Some nx, Some ny -> if x = y then "1" else if eqf nx ny then "1" else "0"
+            | _ -> "nonode")
+         | _ -> "badop")
+      | 'L' | 'K' | 'S' ->
+        (match String.split_on_char ',' a with
+         | [x; y] ->
+           (match get_ref x, get_ref y with
+            | Some coll, Some key ->
+              if k = 'L' then (match map_lookup c no_ext_equal coll key with
+                  | Some i -> Printf.sprintf "idx%d" (let rec cnt (x : nat) = match x with O -> 0 | S y -> 1 + cnt y in cnt i)
+                  | None -> "none")
+              else if k = 'K' then (if map_contains c no_ext_equal coll key then "1" else "0")
+              else (if set_contains c no_ext_equal coll key then "1" else "0")
+            | _ -> "nonode")
+         | _ -> "badop")
+      | 'W' | 'N' | 'T' ->
+        (match String.split_on_char ',' a with
+         | x :: args ->
+           (match get_ref x with
+            | Some coll ->
+              let bs h = Array.to_list (Array.map (fun v -> byte_tab.(v)) (bytes_of_hex h)) in
+              let r = (match k, args with
+                  | 'W', [nm] -> map_get_keyword c no_ext_equal coll (bs nm)
+                  | 'T', [key] -> map_get_string_key c no_ext_equal coll (bs key)
+                  | 'N', [ns; nm] -> map_get_ns_keyword c no_ext_equal coll (bs ns) (bs nm)
+                  | _ -> None) in
+              (match r with
+               | Some i -> Printf.sprintf "idx%d" (let rec cnt (x : nat) = match x with O -> 0 | S y -> 1 + cnt y in cnt i)
+               | None -> "none")
+            | None -> "nonode")
+         | _ -> "badop")
+      | 'G' ->
+        (match get_ref a with
+         | Some (Node (v, _, _, _, _)) ->
+           (match string_get c v with
+            | None -> "NULL"
+            | Some (bs, len) -> Printf.sprintf "%d:%s" (int_of_n len) (hex_of_bytes bs))
+         | None -> "nonode")
+      | 'Q' ->
+        (match String.split_on_char ',' a with
+         | [x; h] ->
+           (match get_ref x with
+            | Some (Node (v, _, _, _, _)) ->
+              let want = Array.to_list (Array.map (fun q -> byte_tab.(q)) (bytes_of_hex h)) in
+              (match string_get c v with
+               | Some (bs, _) -> if bs = want then "1" else "0"
+               | None -> "0")
+            | None -> "0")
+         | _ -> "badop")
+      | 'D' ->
+        (match get_ref a with
+         | Some nd -> let b = Buffer.create 64 in dump b nd; strip_ranges_s (Buffer.contents b)
+         | None -> "nonode")
+      | _ -> "badop") ops in
+  String.concat ";" outs
+
+let run_reg_ops (text : string) : string =
+  let reg = ref reg_empty in
+  String.concat ";" (List.map (fun op ->
+      let k = op.[0] in
+      let a = String.sub op 1 (String.length op - 1) in
+      match k with
+      | 'r' ->
+        let i = String.rindex a ':' in
+        reg := reg_register !reg (coq_bytes_of_string (String.sub a 0 i))
+            (z_of_int (int_of_string (String.sub a (i + 1) (String.length a - i - 1))));
+        "1"
+      | 'u' -> reg := reg_unregister !reg (coq_bytes_of_string a); "-"
+      | 'l' -> (match reg_lookup !reg (coq_bytes_of_string a) with
+          | Some h -> "h" ^ string_of_int (int_of_z h) | None -> "none")
+      | _ -> "badop") (List.filter (fun s -> s <> "") (String.split_on_char ';' text)))
+
+let run_ext_ops (text : string) : string =
+  let tab = ref [] in
+  String.concat ";" (List.map (fun op ->
+      let k = op.[0] in
+      let a = String.sub op 1 (String.length op - 1) in
+      match k with
+      | 'r' ->
+        let i = String.rindex a ':' in
+        tab := ext_register !tab (z_of_dec (String.sub a 0 i))
+            (z_of_int (int_of_string (String.sub a (i + 1) (String.length a - i - 1))));
+        "1"
+      | 'u' -> tab := ext_unregister !tab (z_of_dec a); "-"
+      | 'l' -> (match ext_lookup !tab (z_of_dec a) with
+          | Some kk -> let v = int_of_z kk in Printf.sprintf "k%d%d" (if v <> 0 then 1 else 0) (if v <> 0 then 1 else 0)
+          | None -> "none")
+      | _ -> "badop") (List.filter (fun s -> s <> "") (String.split_on_char ';' text)))
+
+let run_arena (text : string) : string =
+  let a = ref arena_new in
+  (* libc can provide any block below 2^40 bytes in this model *)
+  let malloc_ok (sz : z) = Z.ltb sz (Z.pow (z_of_int 2) (z_of_int 40)) in
+  String.concat ";" (List.map (fun tok ->
+      let req =
+        if tok.[0] = 'M' then Z.sub (Z.sub (Z.pow (z_of_int 2) (z_of_int 64)) (z_of_int 1))
+            (z_of_dec (String.sub tok 1 (String.length tok - 1)))
+        else z_of_dec tok in
+      let (r, a') = arena_alloc malloc_ok !a req in
+      a := a';
+      match r with Some _ -> "ok" | None -> "NULL") (String.split_on_char ',' text))
+
 let parse_registry (s : string) : (bytes * z) list option =
   if s = "-" then None
   else if s = "+" then Some []
@@ -231,6 +432,10 @@ let () =
              (match ratio_gcd (z_of_dec x) (z_of_dec y) with
               | Some g -> dec_of_z g
               | None -> "NONTERMINATION")
+           | ["script"; t] -> run_script c t
+           | ["reg"; t] -> run_reg_ops t
+           | ["ext"; t] -> run_ext_ops t
+           | ["arena"; t] -> run_arena t
            | cmd :: _ -> "BADCMD " ^ cmd
          with Failure m -> "DRIVERFAIL " ^ m
        in
